@@ -251,14 +251,23 @@ def run(ctx):
         ctx.sample({"request": all_requests[4] if len(all_requests) > 4 else "", "response": resp[4] if len(resp) > 4 else ""})
 
     # (b) net unchanged by real diagnostics
-    n_nets = ctx.budget(3, 25)
+    n_nets = ctx.budget(8, 60)
     from pandapower.diagnostic import Diagnostic
     for k in range(n_nets):
         net = netgen.random_net(ctx.rng, kinds=netgen.DEFAULT_KINDS, dcline=(k % 3 == 2))
+        # the tool is written for sick networks: most of its repair experiments only run on them
+        faults = []
+        if k >= 1:
+            for _ in range(1 if k % 2 else 2):
+                faults.append(netgen.inject_fault(ctx.rng, net, netgen.FAULTS[(k * 3 + len(faults)) % len(netgen.FAULTS)]))
+        ctx.hist("snapshot_faults", "+".join(sorted(faults)) or "healthy")
         if k % 2 == 0:
-            netgen.run_ok(net)
+            try:
+                netgen.run_ok(net)
+            except Exception:       # noqa  a sick net may raise; the state after diagnostics is what counts
+                pass
         before = snapshot.snapshot(net)
-        res_before = {t: net[t].copy() for t in net.keys() if t.startswith("res_") and hasattr(net[t], "columns")}
+        net_json_before = pp.to_json(net)
         kw = {} if k % 2 else {"overload_scaling_factor": 0.5}
         try:
             with core.quiet():
@@ -270,7 +279,9 @@ def run(ctx):
         ctx.hist("snapshot_nets", "changed" if d else "unchanged")
         if d:
             ctx.failure("net-changed", f"diagnose_network changed the net: {d[:5]}",
-                        {"net_json": pp.to_json(net), "diff": d, "kwargs": kw})
+                        {"net_json_before": net_json_before, "faults": faults, "diff": d, "kwargs": kw,
+                         "repro": "net = pp.from_json_string(net_json_before); Diagnostic().diagnose_network(net, "
+                                  "report_style=None, **kwargs); compare input tables"})
 
 
 def replay(ctx, path):
